@@ -29,15 +29,19 @@ EXPLANATION = (
     'statement is the variant whose reference counter is bumped and written; R4 the all / meson-test-prereq / meson-benchmark-prereq '
     'aggregates take the first output of every element of get_build_by_default_targets() / get_testlike_targets(); R5 add_target stores a '
     'target only after the forbidden-name and duplicate-id checks, and backend utility targets are created under a guard on the same name. '
-    'Does NOT decide acyclicity, existence of inputs, reachability from `all` of a concrete project, or whether the guard under which a '
-    'rule is defined (language present, machine is AIX...) agrees with the guard under which it is used.')
+    'Does NOT decide acyclicity, existence of inputs, reachability from `all` of a concrete project, whether the guard under which a '
+    'rule is defined (language present, machine is AIX...) agrees with the guard under which it is used, or whether a backend utility target that is '
+    'neither reserved nor guarded is acceptable (a collision is then still rejected at generation time by R1/R2, e.g. coverage-sonarqube).')
 ASSUMPTIONS = [
     'coredata.compilers[machine] is keyed by language name and compiler.get_language() equals that key',
     'exceptions abort the generation: only normal paths (and handler paths that continue) must register an element',
     'helpers that receive an element (add_header_deps, generate_coverage_command, ...) do not replace or drop it',
 ]
-TECHNIQUE = ('all-paths pairing on per-function CFGs (created -> registered | returned), CFG reaching definitions + scoped origin '
-             'tracing, symbolic evaluation of rule-name expressions to literal/hole shapes, decision tables, who-may-write scans')
+TECHNIQUE = ('CFG reachability/dominance per function (all-paths pairing created -> registered | returned, guards that dominate), def-use chains by '
+             'CFG reaching definitions with scoped origin sets (which self.<field> flows into an expression), who-may-write scans, decision tables '
+             'with world enumeration (sa.tables), and comparison of the normalised shape of rule-name expressions (constant text, constant format '
+             'strings, operand roles such as <compiler>.get_language(); the two constants of PerMachine(a, b)[m], if/else arms, reaching definitions and '
+             'call sites of single-return helpers give finitely many alternatives).  No function body is interpreted on input values.')
 
 REGISTER = {'self.add_build', 'self.ninja.add_build'}
 REGISTER_RULE = {'self.add_rule', 'self.ninja.add_rule'}
@@ -673,7 +677,6 @@ def r3b(ctx: RuleCtx) -> None:
     # 1. element.write: the suffix '_RSP' is appended to self.rulename exactly when self._should_use_rspfile
     w = infos.get(f'{ELEMENT}.write')
     node, _ = _build_line(w)
-    ev = L.SymEval(ctx.repo, infos, ELEMENT)
     # find the rule expression right of the colon: first non-literal part after the colon literal
     parts = None
     for e in walk_no_nested(node.ast):
@@ -895,22 +898,45 @@ def r4(ctx: RuleCtx) -> None:
     want_dir = f'self.get_target_dir({tv})'
     want_out = f'{tv}.get_outputs()[0]'
     inner_body = {id(x) for st in il.ast.body for x in ast.walk(st)}  # type: ignore[union-attr]
+
+    def output_index(e: ast.AST) -> T.Optional[ast.AST]:
+        """`<tv>.get_outputs()[k]` -> k, anything else -> None."""
+        if isinstance(e, ast.Subscript) and isinstance(e.value, ast.Call) and call_name(e.value) == f'{tv}.get_outputs' and not e.value.args:
+            return e.slice
+        return None
     firsts = []
+    unknown = []
+    total = 0
     for n, c in info.mutations().get(lst, []):
-        if c.func.attr not in ('append', 'extend', 'insert') or not c.args or id(c) not in inner_body:  # type: ignore[union-attr]
+        if id(c) not in inner_body:
             continue
-        a = L.inline_locals(info, c.args[-1], n)
-        if 'get_outputs' in norm(a) or 'get_filename' in norm(a):
+        total += 1
+        if c.func.attr != 'append' or len(c.args) != 1:  # type: ignore[union-attr]
+            unknown.append(c)
+            continue
+        a = L.inline_locals(info, c.args[0], n)
+        if isinstance(a, ast.Call) and call_name(a) == 'os.path.join' and len(a.args) == 2 and not a.keywords:
+            k = output_index(a.args[1])
+            if k is None:
+                if f'{tv}.get_outputs' in norm(a):
+                    unknown.append(c)
+                continue                      # some other input of the aggregate (e.g. the import library)
             firsts.append((n, c, a))
+            ctx.require(norm(a.args[0]) == want_dir and norm(k) == '0', f'aggregate input is os.path.join({want_dir}, {want_out})', mod, qn, c,
+                        f'aggregate input is `{short(a, 90)}`; the path under which the statement that builds the target registers its first output is '
+                        f'os.path.join({want_dir}, {want_out})', c)
+        elif output_index(a) is not None:
+            firsts.append((n, c, a))
+            ctx.violation(mod, qn, c, f'aggregate input is the bare output name `{short(a, 60)}`: the statement that builds the target produces '
+                          f'os.path.join({want_dir}, {want_out}), so targets in sub-directories are not reachable from the aggregate', c)
+        else:
+            unknown.append(c)
     if not firsts:
-        ctx.violation(mod, qn, f'{lst}.append(<output of {tv}>)', f'the loop over `{dvar}` never adds an output of `{tv}` to the inputs `{lst}` of the aggregate', il.ast)
+        if unknown:
+            raise Undecided(f'generate_ending: the inputs of the aggregate are added in a form the rule does not understand: `{short(unknown[0], 80)}`')
+        ctx.violation(mod, qn, f'{lst}.append(<output of {tv}>)', f'the loop over `{dvar}` never adds an output of `{tv}` to the inputs `{lst}` of the aggregate '
+                      f'({total} additions of other kinds)', il.ast)
         return
-    for n, c, a in firsts:
-        okj = c.func.attr == 'append' and isinstance(a, ast.Call) and call_name(a) == 'os.path.join' and len(a.args) == 2 and not a.keywords and \
-            norm(a.args[0]) == want_dir and norm(a.args[1]) == want_out  # type: ignore[union-attr]
-        ctx.require(okj, f'aggregate input is os.path.join({want_dir}, {want_out})', mod, qn, c,
-                    f'aggregate input is `{short(a, 90)}`; the path under which the statement that builds the target registers its first output is '
-                    f'os.path.join({want_dir}, {want_out})', c)
     fn_nodes = [n for n, c, a in firsts]
     starts = [cfg.nodes[b] for b, lab in cfg.succ[il.id] if lab == 'iter']
     esc = False
@@ -1139,7 +1165,6 @@ def r5(ctx: RuleCtx) -> None:
     mod = ctx.repo.module(NB)
     infos = _infos(ctx)
     cp = infos.get(f'{BACKEND}.create_phony_target')
-    ev = L.SymEval(ctx.repo, infos, BACKEND)
     ctors = [c for c in _own_calls(cp.fn) if _is_ctor(c, ELEMENT)]
     cps = _param_names(cp.fn)
     prefixes = set()
